@@ -102,7 +102,8 @@ def run(ctx):
     uom = U.calls_in(ucfg, 'update_on_match')
     ok = False
     for nn, cc in uom:
-        ok = U.guarded(ucfg, nn, 'query_filter', True)
+        ok = U.guarded(ucfg, nn, 'query_filter', True) and \
+            U.plain_update_only_without_filter(ucfg)
     spec = [x for x in own_nodes(uf.node) if isinstance(x, ast.Call) and
             U.call_name(x) == 'CronTrigger' and
             any(k.arg is None and dotted(k.value) == 'query_filter'
